@@ -319,6 +319,57 @@ def build():
     mc = strip_comments(read("src/rdata/macros.rs"))
     one(r"ZoneRecordData::Unknown\(ref inner\)\s*=>\s*\{\s*inner\.rtype\(\)\.hash\(state\);\s*inner\.data\(\)\.as_ref\(\)\.hash\(state\);\s*\}", mc, "ZoneRecordData::hash Unknown arm")
     defs.append(("zone_unknown_hash_feeds_rtype", "bool", "true"))
+    # the remaining chain-shaped canonical_cmp impls: field order and method
+    def chain_of(rel, ty, expect):
+        src = strip_comments(read(rel))
+        hdr = r"impl<[^>]*>\s*CanonicalOrd<%s<[^>]*>>\s*for\s+%s<[^>]*>\s*(?:where[^{]*)?\{" % (ty, ty)
+        body = fn_body(impl_after(src, hdr, "%s::canonical_cmp" % ty), "canonical_cmp")
+        rx = re.compile(r"self\.([a-z_]+)((?:\.into_int\(\)|\.as_ref\(\))*)\s*\.\s*(cmp|canonical_cmp|name_cmp|composed_cmp|lowercase_composed_cmp|partial_cmp)\(\s*&?\s*(self|other)\.([a-z_]+)")
+        got = []
+        for m in rx.finditer(body):
+            if m.group(4) != "other" or m.group(1) != m.group(5):
+                raise GenError("%s::canonical_cmp compares self.%s with %s.%s" % (ty, m.group(1), m.group(4), m.group(5)))
+            got.append((m.group(1), m.group(3)))
+        if got != expect:
+            raise GenError("%s::canonical_cmp chain is %r, expected %r" % (ty, got, expect))
+        defs.append(("%s_fields_ok" % ty.lower(), "bool", "true"))
+    C, CC, LC = "cmp", "canonical_cmp", "lowercase_composed_cmp"
+    chain_of("src/rdata/tlsa.rs", "Tlsa", [("usage", C), ("selector", C), ("matching_type", C), ("data", C)])
+    chain_of("src/rdata/sshfp.rs", "Sshfp", [("algorithm", C), ("fingerprint_type", C), ("fingerprint", C)])
+    chain_of("src/rdata/zonemd.rs", "Zonemd", [("serial", C), ("scheme", C), ("algo", C), ("digest", C)])
+    chain_of("src/rdata/cds.rs", "Cdnskey", [("flags", C), ("protocol", C), ("algorithm", C), ("public_key", C)])
+    chain_of("src/rdata/cds.rs", "Cds", [("key_tag", C), ("algorithm", C), ("digest_type", C), ("digest", C)])
+    chain_of("src/rdata/rp.rs", "Rp", [("mbox", LC), ("txt", LC)])
+    chain_of("src/rdata/rfc1035/minfo.rs", "Minfo", [("rmailbx", LC), ("emailbx", LC)])
+    chain_of("src/rdata/rfc1035/hinfo.rs", "Hinfo", [("cpu", CC), ("os", CC)])
+    chain_of("src/rdata/openpgpkey.rs", "Openpgpkey", [("key", C)])
+    chain_of("src/rdata/dnssec.rs", "Rrsig", [("type_covered", C), ("algorithm", C), ("labels", C), ("original_ttl", C), ("expiration", CC),
+                                               ("inception", CC), ("key_tag", C), ("signer_name", LC), ("signature", C)])
+    chain_of("src/rdata/nsec3.rs", "Nsec3", [("hash_algorithm", C), ("flags", C), ("iterations", C), ("salt", CC), ("next_owner", CC), ("types", CC)])
+    chain_of("src/rdata/nsec3.rs", "Nsec3param", [("hash_algorithm", C), ("flags", C), ("iterations", C), ("salt", CC)])
+    chain_of("src/rdata/caa.rs", "Caa", [("flags", C), ("tag", CC), ("value", C)])
+    chain_of("src/rdata/naptr.rs", "Naptr", [("order", C), ("preference", C), ("flags", CC), ("services", CC), ("regexp", CC), ("replacement", LC)])
+    # length-prefixed pieces: length first, then octets
+    n3 = strip_comments(read("src/rdata/nsec3.rs"))
+    for ty in ("Nsec3Salt", "OwnerHash"):
+        b = impl_after(n3, r"impl<T,\s*U>\s*CanonicalOrd<%s<U>>\s*for\s+%s<T>\s*where[^{]*\{" % (ty, ty), "%s::canonical_cmp" % ty)
+        one(r"match\s+self\.0\.as_ref\(\)\.len\(\)\.cmp\(\s*&other\.0\.as_ref\(\)\.len\(\)\s*\)\s*\{\s*Ordering::Equal\s*=>\s*\{\s*\}\s*,?\s*other\s*=>\s*return\s+other\s*,?\s*\}\s*self\.as_slice\(\)\.cmp\(\s*other\.as_slice\(\)\s*\)", b, "%s::canonical_cmp is length first" % ty)
+    defs.append(("nsec3_pieces_len_first", "bool", "true"))
+    # name-only types: lowercase_composed_cmp of the single field
+    mac = strip_comments(read("src/rdata/macros.rs"))
+    for mname in ("name_type_well_known", "name_type_canonical"):
+        mm = one(r"macro_rules!\s+%s\s*\{" % mname, mac, mname)
+        body = block_from(mac, mm.end() - 1)
+        one(r"fn\s+canonical_cmp\(&self,\s*other:\s*&\$target<NN>\)\s*->\s*Ordering\s*\{\s*self\.\$field\.lowercase_composed_cmp\(&other\.\$field\)\s*\}", body, "%s canonical_cmp" % mname)
+        one(r"fn\s+compose_canonical_rdata<Target>\([^)]*\)\s*->\s*Result<\(\),\s*Target::AppendError>\s*where[^{]*\{\s*self\.\$field\.compose_canonical\(target\)\s*\}", body, "%s compose_canonical_rdata" % mname)
+    defs.append(("name_types_lowercase", "bool", "true"))
+    # AllRecordData::eq: is there an arm for the Unknown and for the Opt variant?
+    ab = impl_after(mac, r"impl<O,\s*OO,\s*N,\s*NN>\s*PartialEq<AllRecordData<OO,\s*NN>>\s*for\s+AllRecordData<O,\s*N>\s*where[^{]*\{", "PartialEq for AllRecordData")
+    eb = fn_body(ab, "eq")
+    one(r"\(_,\s*_\)\s*=>\s*false", eb, "AllRecordData::eq fallback arm")
+    for var in ("Unknown", "Opt"):
+        has = re.search(r"&AllRecordData::%s\(ref (\w+)\),\s*&AllRecordData::%s\(ref (\w+)\)\s*\)\s*=>\s*\{\s*\1\.eq\(\2\)\s*\}" % (var, var), eb) is not None
+        defs.append(("all_record_data_eq_has_%s_arm" % var.lower(), "bool", bool_(has)))
     tx = strip_comments(read("src/rdata/rfc1035/txt.rs"))
     b = impl_after(tx, r"impl<Octs,\s*Other>\s*CanonicalOrd<Txt<Other>>\s*for\s+Txt<Octs>\s*where[^{]*\{", "Txt::canonical_cmp")
     one(r"self\.0\.as_ref\(\)\.cmp\(\s*other\.0\.as_ref\(\)\s*\)", b, "Txt::canonical_cmp is wire octets order")
